@@ -1,10 +1,130 @@
-"""C15 constants re-extracted from /repo on every run (see gen/params.py)."""
+"""C15 constants, re-read on every run (see gen/params.py).
+
+ROBUSTNESS rule 3: the values come from the COMPILED code — a tiny probe program that prints the
+constexpr members is compiled against the tree under test (LTV_REPO) — so a refactor of how a constant
+is written (type, initialiser expression, moved declaration) does not break params_ok_now.  The anchored
+regexes are kept only as a fallback / cross-check for the case that the probe cannot be built."""
+import os
 import re
+import subprocess
+import tempfile
+
+_PROBE = {
+    "dht_bucket_num_nodes": ("dht/dht_bucket.h", "torrent::DhtBucket::num_nodes"),
+    "dht_max_failed_replies": ("dht/dht_node.h", "torrent::DhtNode::max_failed_replies"),
+    "dht_size_token": ("dht/dht_router.h", "torrent::DhtRouter::size_token"),
+    "dht_timeout_update": ("dht/dht_router.h", "torrent::DhtRouter::timeout_update"),
+    "dht_timeout_remove_node": ("dht/dht_router.h", "torrent::DhtRouter::timeout_remove_node"),
+    "dht_timeout_peer_announce": ("dht/dht_router.h", "torrent::DhtRouter::timeout_peer_announce"),
+    "dht_tracker_max_peers": ("dht/dht_tracker.h", "torrent::DhtTracker::max_peers"),
+    "dht_tracker_max_size": ("dht/dht_tracker.h", "torrent::DhtTracker::max_size"),
+    "dht_hash_string_size": ("torrent/hash_string.h", "torrent::HashString::size_data"),
+}
+_cache = {}
 
 
-def _prod(m):
-    """'4 * 60 * 60' -> 14400 (only products of decimal literals are accepted)."""
-    s = m.group(1).strip()
+def _compile_run(repo, names):
+    src = ['#include "config.h"', "#include <cstdio>"]
+    for h in sorted({_PROBE[n][0] for n in names}):
+        src.append('#include "%s"' % h)
+    src.append("int main() {")
+    for n in names:
+        src.append('  printf("%s=%%llu\\n", (unsigned long long)%s);' % (n, _PROBE[n][1]))
+    src.append("  return 0; }")
+    with tempfile.TemporaryDirectory(prefix="ltv-c15-probe-") as d:
+        cc = os.path.join(d, "p.cc")
+        open(cc, "w").write("\n".join(src))
+        r = subprocess.run(["g++", "-std=c++20", "-DHAVE_CONFIG_H", "-DLT_VERIF", "-I" + repo, "-I" + repo + "/src",
+                            "-I" + repo + "/src/torrent", "-fno-access-control", "-O0", cc, "-o", os.path.join(d, "p")],
+                           stdout=subprocess.PIPE, stderr=subprocess.STDOUT, timeout=120)
+        if r.returncode != 0:
+            return None
+        o = subprocess.run([os.path.join(d, "p")], stdout=subprocess.PIPE, timeout=20).stdout.decode()
+    return {k: int(v) for k, v in (l.split("=") for l in o.split("\n") if "=" in l)}
+
+
+def _disk_key(repo):
+    import hashlib
+    h = hashlib.sha1(repr(sorted(_PROBE.items())).encode())
+    h.update(_BEHAVIOUR_SRC.encode())
+    for rel in sorted({"src/" + v[0] for v in _PROBE.values()} | {"config.h", "src/dht/dht_bucket.cc"}):
+        try:
+            h.update(open(os.path.join(repo, rel), "rb").read())
+        except OSError:
+            h.update(b"?")
+    return os.path.join(os.path.dirname(os.path.dirname(os.path.abspath(__file__))), "build", "params-c15-%s.json" % h.hexdigest()[:16])
+
+
+def _probe():
+    repo = os.environ.get("LTV_REPO", "/repo")
+    if repo not in _cache:
+        import json
+        key = _disk_key(repo)      # the probe result only depends on these headers: keep it across runs
+        try:
+            _cache[repo] = json.load(open(key))
+            return _cache[repo]
+        except (OSError, ValueError):
+            pass
+        try:
+            vals = _compile_run(repo, list(_PROBE))
+            beh = _behaviour(repo)
+            if vals is None:        # one member renamed/removed: salvage the others one by one
+                vals = {}
+                for n in _PROBE:
+                    v = _compile_run(repo, [n])
+                    if v:
+                        vals.update(v)
+            vals.update(beh)
+        except Exception:
+            vals = {}
+        _cache[repo] = vals
+        if len(vals) == len(_PROBE) + 1:
+            try:
+                os.makedirs(os.path.dirname(key), exist_ok=True)
+                json.dump(vals, open(key + ".%d.tmp" % os.getpid(), "w"))
+                os.replace(key + ".%d.tmp" % os.getpid(), key)
+            except OSError:
+                pass
+    return _cache[repo]
+
+
+_BEHAVIOUR_SRC = r'''
+#include "config.h"
+#include <cstdio>
+#include <chrono>
+#include "dht/dht_bucket.cc"
+namespace torrent::this_thread { std::chrono::seconds cached_seconds() { return std::chrono::seconds(1000); } }
+int main() {
+  // does a node turning bad in one bucket empty the reply cache of the OTHER buckets of the chain?
+  torrent::HashString a, b;
+  a.clear(); b.clear(0xff);
+  torrent::DhtBucket p(a, b), c(a, b);
+  p.m_child = &c; c.m_parent = &p;
+  p.m_fullCacheLength = 5; c.m_fullCacheLength = 5;
+  c.node_now_bad(false);
+  printf("dht_cache_chain_invalidate=%d\n", p.m_fullCacheLength == 0 && c.m_fullCacheLength == 0 ? 1 : 0);
+  return 0;
+}
+'''
+
+
+def _behaviour(repo):
+    """behavioural probe (ROBUSTNESS rule 3: 'fix present' flags are decided by running the code):
+    dht_bucket.cc is compiled into a tiny program; symbols it never reaches stay unresolved"""
+    with tempfile.TemporaryDirectory(prefix="ltv-c15-probe-") as d:
+        cc = os.path.join(d, "q.cc")
+        open(cc, "w").write(_BEHAVIOUR_SRC)
+        r = subprocess.run(["g++", "-std=c++20", "-DHAVE_CONFIG_H", "-DLT_VERIF", "-I" + repo, "-I" + repo + "/src",
+                            "-I" + repo + "/src/torrent", "-fno-access-control", "-O0", "-no-pie", cc, "-o", os.path.join(d, "q"),
+                            "-Wl,--unresolved-symbols=ignore-all"], stdout=subprocess.PIPE, stderr=subprocess.STDOUT, timeout=120)
+        if r.returncode != 0:
+            return {}
+        o = subprocess.run([os.path.join(d, "q")], stdout=subprocess.PIPE, timeout=20).stdout.decode()
+    return {k: int(v) for k, v in (l.split("=") for l in o.split("\n") if "=" in l)}
+
+
+def _prod(s):
+    s = s.strip()
     if not re.fullmatch(r"\d+(\s*\*\s*\d+)*", s):
         raise ValueError(s)
     v = 1
@@ -13,15 +133,46 @@ def _prod(m):
     return v
 
 
+def _entry(name, rel, rx):
+    """value from the compiled probe; the regex on the source text is only the fallback"""
+    def conv(m):
+        v = _probe().get(name)
+        if v is not None:
+            return v
+        mm = re.search(rx, m.string, flags=re.S)
+        if not mm:
+            raise ValueError(name)
+        return _prod(mm.group(1))
+    return (name, rel, r"", "N", conv)
+
+
+def _active_age(m):
+    # DhtNode::update(): m_recently_active = age() < 15 * 60;  (an expression inside an inline function,
+    # not a named constant; cannot be probed without running the node code)
+    for rx in (r"m_recently_active = age\(\) < ([\d \*]+);", r"age\(\)\s*<\s*([\d \*]+)\s*;"):
+        mm = re.search(rx, m.string)
+        if mm:
+            return _prod(mm.group(1))
+    raise ValueError("dht_node_active_age")
+
+
+def _chain_inval(m):
+    v = _probe().get("dht_cache_chain_invalidate")
+    if v is not None:
+        return v
+    return 1 if "invalidate_caches" in m.string else 0      # fallback only: source text
+
+
 ENTRIES = [
-    ("dht_bucket_num_nodes", "src/dht/dht_bucket.h", r"static constexpr unsigned int num_nodes = (\d+);", "N"),
-    ("dht_max_failed_replies", "src/dht/dht_node.h", r"static constexpr unsigned int max_failed_replies = (\d+);", "N"),
-    ("dht_node_active_age", "src/dht/dht_node.h", r"m_recently_active = age\(\) < ([\d \*]+);", "N", _prod),
-    ("dht_size_token", "src/dht/dht_router.h", r"static constexpr unsigned int size_token = (\d+);", "N"),
-    ("dht_timeout_update", "src/dht/dht_router.h", r"timeout_update\s*=\s*([\d \*]+);", "N", _prod),
-    ("dht_timeout_remove_node", "src/dht/dht_router.h", r"timeout_remove_node\s*=\s*([\d \*]+);", "N", _prod),
-    ("dht_timeout_peer_announce", "src/dht/dht_router.h", r"timeout_peer_announce\s*=\s*([\d \*]+);", "N", _prod),
-    ("dht_tracker_max_peers", "src/dht/dht_tracker.h", r"static constexpr unsigned int max_peers = (\d+);", "N"),
-    ("dht_tracker_max_size", "src/dht/dht_tracker.h", r"static constexpr unsigned int max_size = (\d+);", "N"),
-    ("dht_hash_string_size", "src/torrent/hash_string.h", r"size_data\s*=\s*(\d+)", "N"),
+    ("dht_cache_chain_invalidate", "src/dht/dht_bucket.cc", r"", "N", _chain_inval),
+    _entry("dht_bucket_num_nodes", "src/dht/dht_bucket.h", r"num_nodes\s*=\s*([\d \*]+);"),
+    _entry("dht_max_failed_replies", "src/dht/dht_node.h", r"max_failed_replies\s*=\s*([\d \*]+);"),
+    ("dht_node_active_age", "src/dht/dht_node.h", r"", "N", _active_age),
+    _entry("dht_size_token", "src/dht/dht_router.h", r"size_token\s*=\s*([\d \*]+);"),
+    _entry("dht_timeout_update", "src/dht/dht_router.h", r"timeout_update\s*=\s*([\d \*]+);"),
+    _entry("dht_timeout_remove_node", "src/dht/dht_router.h", r"timeout_remove_node\s*=\s*([\d \*]+);"),
+    _entry("dht_timeout_peer_announce", "src/dht/dht_router.h", r"timeout_peer_announce\s*=\s*([\d \*]+);"),
+    _entry("dht_tracker_max_peers", "src/dht/dht_tracker.h", r"max_peers\s*=\s*([\d \*]+);"),
+    _entry("dht_tracker_max_size", "src/dht/dht_tracker.h", r"max_size\s*=\s*([\d \*]+);"),
+    _entry("dht_hash_string_size", "src/torrent/hash_string.h", r"size_data\s*=\s*([\d \*]+);"),
 ]
